@@ -1111,6 +1111,14 @@ pub(crate) fn eval_query(ctx: &Context, expr: &Query) -> Result<QueryReply, Quer
                 }
                 Some(val) => val,
             };
+            // The search recurses once per factor, and a product has at
+            // least as many factors as the complexity score allows.
+            if val.complexity_score() > 128 {
+                return Err(QueryError::generic(format!(
+                    "<{}> is too complex to factorize",
+                    val.show(ctx)
+                )));
+            }
             let quantities = ctx
                 .registry
                 .quantities
